@@ -13,6 +13,7 @@ package db
 
 import (
 	"context"
+	"encoding/json"
 	"fmt"
 	"maps"
 	"math"
@@ -21,6 +22,7 @@ import (
 	"strconv"
 	"strings"
 	"testing"
+	"unicode/utf8"
 
 	"github.com/couchbase/go-blip"
 	sgbucket "github.com/couchbase/sg-bucket"
@@ -842,8 +844,17 @@ func vfC10CheckWireInput(t kit.TB, test, rev, history string) (accepted, emptySo
 		if !again.Equal(h) || len(legacy) != 0 {
 			kit.Violation(t, "C10", test, render(), "accepted as %s, which is sent as %s and received as %s (legacy %v)", vfC10Render(h), wire, vfC10Render(again), legacy)
 		}
-		// and the parsed vector survives the stored form
-		vfC10CheckPersist(t, test, h, render)
+		// and the parsed vector survives the stored form (JSON strings are UTF-8: a source id that is not
+		// valid UTF-8 cannot come from the product's base64 ids and is altered by any JSON encoder)
+		utf8ok := utf8.ValidString(h.SourceID)
+		for _, m := range []HLVVersions{h.MergeVersions, h.PreviousVersions} {
+			for src := range m {
+				utf8ok = utf8ok && utf8.ValidString(src)
+			}
+		}
+		if utf8ok {
+			vfC10CheckPersist(t, test, h, render)
+		}
 	})
 	return accepted, emptySource
 }
@@ -872,12 +883,25 @@ var vfC10WireSeeds = [][2]string{
 	{"1@x", "1@x"}, {"1@x", "2@x;3@x"}, {"1@x", "2@y,3@y;"}, {"1@x,2@y;3@z", ""}, {"1@x;", ""}, {"1@x", ";"}, {"1-abc", "1@x"}, {"1@x@y", "2@@"},
 }
 
+// vfC10FuzzTB makes a violation found inside a fuzz worker visible to the driver: worker stdout is not
+// forwarded to the coordinator, only the failure message is, so the machine-readable line rides on it.
+type vfC10FuzzTB struct {
+	*testing.T
+	test string
+}
+
+func (f vfC10FuzzTB) Fatalf(format string, args ...any) {
+	msg := fmt.Sprintf(format, args...)
+	j, _ := json.Marshal(map[string]any{"property": "C10", "test": f.test, "what": msg})
+	f.T.Fatalf("%s\nVERIF-VIOLATION %s", msg, j)
+}
+
 func FuzzVerif_C10_Wire(f *testing.F) {
 	for _, s := range vfC10WireSeeds {
 		f.Add(s[0], s[1])
 	}
 	f.Fuzz(func(t *testing.T, rev, history string) {
-		vfC10CheckWireInput(t, "FuzzWire", rev, history)
+		vfC10CheckWireInput(vfC10FuzzTB{t, "FuzzWire"}, "FuzzWire", rev, history)
 	})
 }
 
@@ -890,7 +914,7 @@ func FuzzVerif_C10_Deltas(f *testing.F) {
 		if in != "" {
 			list = strings.Split(in, "\n")
 		}
-		vfC10CheckDeltasInput(t, "FuzzDeltas", list)
+		vfC10CheckDeltasInput(vfC10FuzzTB{t, "FuzzDeltas"}, "FuzzDeltas", list)
 	})
 }
 
